@@ -10,7 +10,13 @@ import (
 func init() {
 	props["c01"] = func(c *ctx) error { return runTables(c, "c01") }
 	props["c02"] = func(c *ctx) error { return runTables(c, "c02") }
-	props["c11"] = func(c *ctx) error { return runTables(c, "c11") }
+	props["c11"] = func(c *ctx) error {
+		// single tables, then stacks (Merged.RefsFor with its double check)
+		if err := runTables(c, "c11"); err != nil {
+			return err
+		}
+		return runMerged(c)
+	}
 	props["c14"] = func(c *ctx) error { return runTables(c, "c14") }
 }
 
@@ -104,7 +110,20 @@ func tableQueries(c *ctx, t *tableCase, which string) []string {
 	return qs
 }
 
+// unit tie of the block writer at the restart-count cap (65535 restart points)
+func runBwCap(c *ctx) {
+	for _, n := range []int{0, 1, 2, 255, 256, 65533, 65534, 65535} {
+		for _, iv := range []int{1, 16} {
+			ok, r, l, st := reftable.VerifBwCap(n, iv, "k")
+			c.emit("bwcap", fmt.Sprintf("%d,%d", n, iv), fmt.Sprintf("%v %d %d %d", ok, r, l, st))
+		}
+	}
+}
+
 func runTables(c *ctx, which string) error {
+	if which == "c01" || which == "c14" {
+		runBwCap(c)
+	}
 	n := 250
 	if c.thorough() {
 		n = 6000
